@@ -816,7 +816,23 @@ class ExprMixin:
                 continue
             if isinstance(base.s, Tup):
                 if ix[0] == "slice":
-                    raise EngineError("slice of tuple (L%d)" % node.lineno)
+                    lo_, hi_ = ix[1], ix[2]
+                    n_ = len(base.s.elems)
+
+                    def _const(v_, default):
+                        if v_ is None:
+                            return default
+                        if isinstance(v_, V) and v_.s == INT and z3.is_int_value(z3.simplify(v_.t)):
+                            k_ = z3.simplify(v_.t).as_long()
+                            return max(0, n_ + k_) if k_ < 0 else min(k_, n_)
+                        return None
+                    a_, b_ = _const(lo_, 0), _const(hi_, n_)
+                    if a_ is None or b_ is None:
+                        raise EngineError("slice of tuple with symbolic bounds (L%d)" % node.lineno)
+                    elems_ = [base.s.get(base, k_) for k_ in range(a_, max(a_, b_))]
+                    so_ = Tup(*[e_.s for e_ in elems_])
+                    res.append((s1, so_.mk(*elems_)))
+                    continue
                 i = ix[1]
                 if not z3.is_int_value(i.t):
                     # symbolic index into a homogeneous tuple: a case per position (non-negative indices), IndexError otherwise
